@@ -194,6 +194,13 @@ impl<'a> Generator<'a> {
                 let error = #label(lex);
                 error.into()
             },
+            Some(Callback::Inline(inline)) if inline.leaves_early() => {
+                let InlineCallback { arg, body, .. } = inline;
+                quote! {
+                    let error = (|#arg: &mut _Lexer<#src_lt, #this>| { #body })(lex);
+                    error.into()
+                }
+            }
             Some(Callback::Inline(InlineCallback { arg, body, .. })) => quote! {
                 let #arg = lex;
                 let error = { #body };
